@@ -306,3 +306,42 @@ def pass_table_text(entries, rules):
 def pass_model_lines(entries, rules):
     base = len(entries) + 1      # rule index: built-in 0, then entries, then pass rules in file order
     return model_table_lines(entries) + [r.model_line(base + k) for k, r in enumerate(rules)]
+
+
+def gen_group_swap_rules(rng, letters, cellvals):
+    """table lines with the multipass constructs outside the modelled fragment: swap classes, grouping pairs, attribute
+    tests with counts, multi-cell indicators - only for the memory / termination / history streams (no model side).
+    Lines the compiler rejects make the table fail to compile, which those streams tolerate."""
+    L = [chr(c) for c in letters if 97 <= c <= 122] or ["a", "b"]
+    d = lambda v: dots_text(v & 0x7fff)
+    cs = [d(c) for c in cellvals] or ["1", "12"]
+    pick = lambda seq, n: [rng.choice(seq) for _ in range(n)]
+    a, b = rng.choice(L), rng.choice(L)
+    n = rng.range(2, min(4, len(L)))
+    sw1, sw2 = "".join(rng.sample(L, n)) if len(L) >= n else "".join(pick(L, n)), "".join(pick(L, n))
+    lines = [
+        "swapcc sw %s %s" % (sw1, sw2),
+        "swapcd sd %s %s" % (sw1, ",".join(pick(cs, n))),
+        "swapdd ss %s %s" % (",".join(rng.sample(cs, min(n, len(cs)))), ",".join(pick(cs, min(n, len(cs))))),
+        "grouping gp %s%s %s,%s" % (a, b if b != a else "z", rng.choice(cs), rng.choice(cs)),
+        "letsign 56", "capsletter 6",
+    ]
+    cnt = lambda: rng.choice(["", "", "1-2", "1-3", "2", "0-1", "1-9"])
+    pool = [
+        "noback correct [%%sw%s] %%sw" % cnt(), 'noback correct %%sw%s "%s"' % (cnt(), a), 'noback correct "%s"[%%sw%s]"%s" %%sw' % (a, cnt(), b),
+        "noback correct [%%sw] *", "noback correct _1[%%sw%s] %%sw" % cnt(), "noback correct [%sw]_1 %sw",
+        "noback context [%%sd%s] %%sd" % cnt(), "noback context %%sd%s @%s" % (cnt(), rng.choice(cs)), 'noback context "%s"[%%sd] %%sd' % a,
+        "noback pass2 [%%ss%s] %%ss" % cnt(), "noback pass2 %%ss%s @%s" % (cnt(), rng.choice(cs)), "noback pass2 @%s[%%ss] %%ss" % rng.choice(cs),
+        "noback pass3 [%ss]_1 %ss", "noback pass2 _1[%%ss%s] %%ss" % cnt(),
+        "nofor pass2 [%%ss%s] %%ss" % cnt(), "nofor pass2 %ss ?", "nofor context [%%sd%s] %%sd" % cnt(), "nofor correct [%%sw%s] %%sw" % cnt(),
+        "nofor pass3 _1[%ss] %ss", "nofor context %sd *",
+        'noback correct {gp "%s"' % a, "noback correct }gp ?", "noback correct {gp *", "noback correct [{gp] ;gp", "noback correct {gp}gp ;gp",
+        'noback correct "%s"{gp {gp' % a, "noback correct [}gp] {gp", "noback pass2 {gp ?", "noback pass2 [{gp]}gp ;gp", "noback pass2 {gp {gp}gp",
+        "nofor pass2 {gp *", "nofor correct }gp {gp", "nofor pass2 [{gp] ;gp",
+        'noback correct $l%s"%s" "%s"' % (cnt(), a, b), "noback pass2 $a%s[@%s] @%s" % (cnt(), rng.choice(cs), rng.choice(cs)),
+        "noback pass2 [$a%s] ?" % cnt(), "noback correct [$l1-9] *", "nofor pass2 $a%s[@%s]$a *" % (cnt(), rng.choice(cs)), "nofor pass2 [$a1-9]_1 ?",
+        "noback correct [!$l] ?", 'noback correct !"%s"["%s"] "%s"' % (a, b, a), "noback pass2 /@%s ?" % rng.choice(cs), 'noback correct "%s"/"%s" ?' % (a, b),
+        "noback pass2 `@%s ?" % rng.choice(cs), "noback pass2 @%s~ @%s" % (rng.choice(cs), rng.choice(cs)), "nofor pass2 `[@%s] *" % rng.choice(cs),
+        "multind %s-%s letsign capsletter" % (rng.choice(cs), rng.choice(cs)), "multind 56-6 capsletter letsign",
+    ]
+    return lines + rng.sample(pool, rng.range(3, 9))
